@@ -107,6 +107,23 @@ def check_cacg(run, A):
     ctor = kwargs_of_ctor(g, None)
     if not ctor:
         raise AnalysisError('from_covariance: constructor call not found')
+    # the decomposition that yields UNITARY eigenvectors is eigh; the general solver (eig: normalised, not orthogonal vectors for a degenerate eigenvalue) is the
+    # fallback of an exception handler only
+    n_dec = 0
+    for e in g.events:
+        if e.kind != 'call' or call_parts(e.term)[0] not in ('numpy.linalg.eig', 'scipy.linalg.eig', 'numpy.linalg.eigh', 'scipy.linalg.eigh'):
+            continue
+        n_dec += 1
+        if call_parts(e.term)[0].endswith('.eig'):
+            import ast as _ast
+            handled = any(getattr(c, 'op', None) == 'caught' for c, _ in (e.guards or []))
+            # `try: return eigh(x)  except LinAlgError: pass` followed by the fallback: not having returned from that try IS the handler path
+            handled = handled or any(getattr(c, 'op', None) == 'nondet' and c.args and c.args[0] == 'try-return' and pol is False and isinstance(getattr(c, 'node', None), _ast.Try)
+                                     and len(c.node.body) == 1 and isinstance(c.node.body[0], _ast.Return) for c, pol in (e.guards or []))
+            run.check(handled, 'R-SAN', 'cACG: eigenvectors come from the Hermitian decomposition (eig only as the fallback of an exception handler)', fn.loc(e.term.node), '',
+                      'np.linalg.eig is called on a regular path: for a degenerate eigenvalue (rank-deficient scatter) its eigenvectors are normalised but not orthogonal - the stored '
+                      'basis is not unitary and U diag(l) U^H is not the covariance the density assumes', construct=f'R-SAN::{q}::eig-on-regular-path')
+    run.floor('cACG decompositions in from_covariance', n_dec, 1)
     _, pos, kw = ctor[0]
     ev_ = kw.get('covariance_eigenvalues')
     from ..walk import gamma_paths
